@@ -560,7 +560,88 @@ FrameV.is_empty = lambda self: V.compare("==", self.n, 0)
 FrameV.width = property(lambda self: len(self.cols))
 
 
+# ---------------------------------------------------------------------------
+# files: a ghost file system path -> (format, frame, float_precision).  Trusted polars contract: read_parquet returns
+# exactly the frame write_parquet stored; read_csv returns the frame write_csv stored with every value rounded to
+# `float_precision` decimals (|read - written| <= 0.5 * 10**-p; exact when float_precision is None); reading a file
+# with the reader of the other format fails.
+FS = {}
+
+
+class PathV:
+    """pathlib.Path over a concrete string (only what acryo uses: suffix, str())"""
+    _pyvc_native = True
+
+    def __init__(self, p):
+        self.p = p.p if isinstance(p, PathV) else str(p)
+
+    @property
+    def suffix(self):
+        import os
+        return os.path.splitext(self.p)[1]
+
+    def __str__(self):
+        return self.p
+
+    __fspath__ = __str__
+
+    def __eq__(self, other):
+        return isinstance(other, PathV) and other.p == self.p
+
+    def __hash__(self):
+        return hash(self.p)
+
+
+def _write(fmt):
+    def write(self, file=None, *a, float_precision=None, **kw):
+        FS[str(file)] = (fmt, self, float_precision if fmt == "csv" else None, dict(kw))
+        return None
+    return write
+
+
+def csv_tolerance(p):
+    from fractions import Fraction
+    return Fraction(1, 2 * 10 ** int(p))
+
+
+def _read(fmt):
+    def read(source, *a, **kw):
+        key = str(source)
+        if key not in FS:
+            _raise("FileNotFoundError", key)
+        wfmt, frame, prec, _ = FS[key]
+        if wfmt != fmt:
+            _raise("PolarsError", f"{key} is not a {fmt} file")
+        if fmt == "parquet" or prec is None:
+            return frame._like(frame.n, lambda i: i)
+        if is_sym(prec):
+            raise Unsupported("symbolic float_precision")
+        tol = csv_tolerance(prec)
+        out = frame._like(frame.n, lambda i: i)
+        p = V.PATH[0]
+        for c, arr in list(out.cols.items()):
+            if arr.dtype != "real":
+                continue
+            f = z3.Function(V.fresh_name(f"csv_{c}"), z3.IntSort(), z3.RealSort())
+            src = arr.snapshot()
+            i = z3.Int(V.fresh_name("ri"))
+            if p is not None:
+                d = f(i) - V.lift(V.to_real(src((Sym(i),))))
+                p.conds.append(z3.ForAll([i], z3.Implies(z3.And(i >= 0, i < V.lift(frame.n)),
+                                                         z3.And(d <= V.lift(tol), -d <= V.lift(tol)))))
+            out.cols[c] = SArr((frame.n,), lambda idx, f=f: Sym(f(V.lift(idx[0]))), "real")
+        return out
+    return read
+
+
+FrameV.write_csv = _write("csv")
+FrameV.write_parquet = _write("parquet")
+
+
 def register(REG):
+    REG["pathlib.Path"] = PathV
+    REG["polars.read_csv"] = _read("csv")
+    REG["polars.read_parquet"] = _read("parquet")
     REG["polars.DataFrame"] = FrameV
     REG["polars.Series"] = SeriesV
     REG["polars.concat"] = pl_concat
